@@ -941,10 +941,15 @@ def EDFA(input: optical_signal, G: float, NF: float, BW: float=None):
     if not isinstance(input, optical_signal):
         raise TypeError("`input` must be of type (optical_signal).")
 
-    output = optical_signal(signal=input.signal, noise=input.noise, n_pol=2) * np.sqrt( idb(G) )
+    output = optical_signal(signal=input.signal, noise=input.noise, n_pol=2)
+    output.signal = output.signal * np.sqrt( idb(G) )
+    if output.noise is not None:
+        output.noise = output.noise * np.sqrt( idb(G) )  # the noise of the input is amplified like the signal
     
     if input.n_pol == 1:
         output.signal[1] = np.zeros_like(output.signal[0])  # y-polarization of signal is set to zeros.
+        if output.noise is not None:
+            output.noise[1] = np.zeros_like(output.noise[0])  # a single polarization input carries no noise in y-polarization either.
 
     # generate ASE noise (2-polarizations with real and imaginary parts)
     # gv.fs is taken as initial bandwidth of noise 
@@ -955,7 +960,7 @@ def EDFA(input: optical_signal, G: float, NF: float, BW: float=None):
     ase = ase[:2] + 1j*ase[2:]
 
     if output.noise is not None:
-        output.noise += ase
+        output.noise = output.noise + ase
     else:
         output.noise = ase
 
